@@ -13,6 +13,10 @@ public API calls with faults interleaved.  After every operation:
   O4 split == whole        cACGMM segments vs one uninterrupted fit, bitwise
   O5 RNG conservation      operations with a given start do not draw
   O6 no leaked global state  np.geterr / printoptions
+  O7 late re-execution     a sample of the calls is repeated at the end of
+                           the session: same result as the first time
+(+ O3-process-history: a sample of whole runs is repeated in a pristine
+   process, see driver.cross_process_check)
 """
 import copy
 import hashlib
@@ -25,7 +29,7 @@ from .seams import SimulatedCancel, SimulatedInterrupt
 
 PROPERTY = 'C20'
 # runs re-executed in a pristine process after the batch (driver.cross_process_check)
-CROSS_PROCESS_SAMPLE = {'quick': 400, 'thorough': 6000}
+CROSS_PROCESS_SAMPLE = {'quick': 600, 'thorough': 6000}
 
 RULE = (
     'one run = one seeded program of 5-40 (thorough: up to 60) operations '
@@ -117,6 +121,7 @@ class World:
         self.sets = {}
         self.sched = []
         self.reuse_ops = 0
+        self.late = []
         self.faults_fired = 0
         self.boundaries = 0
 
@@ -529,8 +534,37 @@ def run_op(world, idx, op):
             world.models[idx] = PoolModel(out.value, rm, origin)
         if out3.kind == 'ok':
             world.rmodels[idx] = PoolModel(out3.value, rm, origin)
+    if out.kind == 'ok':
+        world.late.append((idx, name, a, rng0, dg.digest(out.value), label))
     seams.rng_set(rng1)
     finish()
+
+
+def late_reexecution(world, limit=10):
+    """O7: at the end of the session a sample of the operations is executed
+    once more on the (by now much more used) shared objects and process, with
+    the RNG state it had the first time.  A different result means the call
+    depends on what ran in between (e.g. a module-level scratch buffer or
+    memo).  Operations that are now rejected (dimension binding) are skipped."""
+    items = world.late
+    if len(items) > limit:
+        pick = sorted(set(int(round(x)) for x in
+                          np.linspace(0, len(items) - 1, limit)))
+        items = [items[i] for i in pick]
+    rng_end = seams.rng_get()
+    for idx, name, a, rng0, digest0, label in items:
+        seams.rng_set(rng0)
+        out = call(name, Ctx(world), a, None)
+        world.count('late_reexecutions')
+        if out.kind != 'ok':
+            continue
+        if dg.digest(out.value) != digest0:
+            _viol(world, 'O7', idx, name, a,
+                  'executing the same call again at the end of the session '
+                  '(same arguments, same RNG state) gives a different result: '
+                  'it depends on the calls made in between')
+            break
+    seams.rng_set(rng_end)
 
 
 # --------------------------------------------------------------------------
@@ -538,6 +572,7 @@ def run_op(world, idx, op):
 # --------------------------------------------------------------------------
 
 def execute(program):
+    models.COPY_INPUTS = False
     saved_err = np.geterr()
     world = World(program)
     seams.rng_seed(program['rng_seed'])
@@ -546,6 +581,8 @@ def execute(program):
             run_op(world, idx, op)
             if world.violations:
                 break
+        if not world.violations:
+            late_reexecution(world)
     finally:
         np.seterr(**saved_err)
     sig = hashlib.sha1(repr(world.sched).encode()).hexdigest()[:16]
